@@ -62,6 +62,21 @@ class CallMixin(object):
     if self.spec_depth and isinstance(f, ast.Name) and f.id in ('forall', 'exists', 'forall_ref', 'exists_ref', 'old', 'let', 'at'):
       yield st, self.spec_binder(f.id, node, st, cx)
       return
+    if self.ghost_depth and not self.spec_depth and isinstance(f, ast.Name) and f.id in ('prove', 'assume'):
+      txt = ast.unparse(node.args[0])
+      self.spec_depth += 1
+      try:
+        g = self.truth(st, self.ev1(node.args[0], st, cx))
+      finally:
+        self.spec_depth -= 1
+      if f.id == 'assume':
+        st.assume(g)
+        self.assumes.append('%s: assume(%s)' % (cx.qual, txt))
+      else:
+        label = node.args[1].value if len(node.args) > 1 and isinstance(node.args[1], ast.Constant) else txt[:40]
+        self.oblige(st, 'prove[%s:%s]@%s' % (cx.qual, label, getattr(node, 'lineno', '?')), g, node, 'at this point: %s' % txt)
+      yield st, NONE_V
+      return
     if self.is_dropped_call(node, cx):
       self.dropped.add('.'.join(self._chain(f)))
       yield st, NONE_V
@@ -140,6 +155,16 @@ class CallMixin(object):
         return iter([(st, self.call_pred(st, cx, callee.name, args, node))])
       if k == 'specbuiltin':
         return iter([(st, self.spec_fn(st, cx, callee.name, args, node))])
+      if k == 'ghostprove':
+        txt = ast.unparse(node.args[0]) if node is not None else '?'
+        self.spec_depth += 1
+        try:
+          g = self.truth(st, self.ev1(node.args[0], st, cx))
+        finally:
+          self.spec_depth -= 1
+        label = args[1].py if len(args) > 1 and getattr(args[1], 'py', None) else txt[:40]
+        self.oblige(st, 'prove[%s:%s]@%s' % (cx.qual, label, getattr(node, 'lineno', '?')), g, node, 'at this point: %s' % txt)
+        return iter([(st, NONE_V)])
       if k == 'ghostassume':
         st.assume(self.truth(st, args[0]))
         self.assumes.append('%s: assume(%s)' % (cx.qual, ast.unparse(node.args[0]) if node is not None else '?'))
@@ -329,11 +354,27 @@ class CallMixin(object):
     for o in outs:
       yield o
 
+  def no_finals_between(self, st, lo, hi):
+    """forall r in (lo, hi]: r is not an instance of a 'final' repository class."""
+    finals = [self.class_id(c) for c, ci in self.reg.classes.items() if ci.final]
+    if not finals:
+      return z3.BoolVal(True)
+    r = z3.Int(fresh_name('r'))
+    cls_arr = self.arr(st, '$cls', [I, I])
+    body = z3.Implies(z3.And(r > lo, r <= hi), z3.And(*[z3.Select(cls_arr, r) != f for f in finals]))
+    if z3.is_const(cls_arr):
+      return z3.ForAll([r], body, patterns=[z3.Select(cls_arr, r)])
+    return z3.ForAll([r], body)
+
   def _havoc_for_call(self, st, spec):
     self.havoc_patterns(st, spec.modifies)
     if spec.allocates:
       a = z3.Int(fresh_name('alloc'))
       st.assume(a >= st.alloc)
+      if spec.allocates != 'any':
+        # allocates=True: nothing of a 'final' class is created (checked at the callee's exit);
+        # allocates='any': the callee's ensures must describe what it creates
+        st.assume(self.no_finals_between(st, st.alloc, a))
       st.alloc = a
 
   # ------------------------------------------------------------------ externs
@@ -389,6 +430,9 @@ class CallMixin(object):
     if ex.allocates:
       a = z3.Int(fresh_name('alloc'))
       st.assume(a >= st.alloc)
+      # objects an extern allocates internally are never instances of the repository's
+      # 'final' classes (those are created only by repository code under contract)
+      st.assume(self.no_finals_between(st, st.alloc, a))
       st.alloc = a
     if ex.returns is None:
       res = NONE_V
@@ -397,6 +441,8 @@ class CallMixin(object):
     else:
       res = self.fresh_val(st, ex.returns, 'ext_' + ex.name.split('.')[-1])
     st.frames[fid]['result'] = res
+    if isinstance(res, V) and res.ty.k != 'none':
+      st.choices.append((ex.name, res))
     self.old_stack.append((snap, dict(params)))
     try:
       for e in ex.ensures:
@@ -595,7 +641,11 @@ class CallMixin(object):
     if name == 'is_none':
       return V(BOOL, self.is_none(args[0]))
     if name == 'allocated':
-      return V(BOOL, z3.And(args[0].t > 0, args[0].t <= st.alloc))
+      b = z3.And(args[0].t > 0, args[0].t <= st.alloc)
+      ty = args[0].ty
+      if ty.k == 'ref' and ty.name in self.reg.classes and self.reg.classes[ty.name].final:
+        b = z3.And(b, self.dyn_class(st, args[0].t) == self.class_id(ty.name))
+      return V(BOOL, b)
     if name == 'fresh':
       snap, _ = self.old_stack[-1]
       return V(BOOL, z3.And(args[0].t > snap.get('$alloc', st.alloc), args[0].t <= st.alloc))
